@@ -121,6 +121,11 @@ func c12Gen(l *c12Loop, inner [2]string) {
 		b2 := fmt.Sprintf("%s\n%s\nif acc > 9 {\nbreak\n}", body, upd)
 		plain = fmt.Sprintf("%s := %s\nfor %s %s %s {\n%s\n}", v, S, v, l.op, N, b2)
 		nat = fmt.Sprintf("%s := %s\nbegin(%d)\nfor %s && %s %s %s {\nbody(%d)\n%s\n}", v, S, id, hdr, v, l.op, N, id, b2)
+	case "panicbody":
+		// the body may panic (the function recovers): the loop is left without the test ever failing
+		b2 := fmt.Sprintf("if acc > 4 {\npanic(\"stop\")\n}\n%s", body)
+		plain = fmt.Sprintf("for %s := %s; %s %s %s; %s {\n%s\n}", v, S, tv, l.op, N, upd, b2)
+		nat = fmt.Sprintf("begin(%d)\nfor %s := %s; %s && %s %s %s; %s {\nbody(%d)\n%s\n}", id, v, S, hdr, tv, l.op, N, upd, id, b2)
 	case "condupdate":
 		u2 := fmt.Sprintf("if acc%%2 == 0 {\n%s\n} else {\n%s\n}", upd, upd)
 		plain = fmt.Sprintf("%s := %s\nfor %s %s %s {\n%s\n%s\n}", v, S, v, l.op, N, body, u2)
@@ -221,6 +226,35 @@ func c12Family(thorough bool) []*c12Func {
 					pre = "c := " + T + "(-125)\n"
 				}
 				add(fmt.Sprintf("%s/for3/i%sc-5/start=0/step=%+d/wrapping-bound", T, op, step), []*c12Loop{l}, pre+l.plain, pre+l.native)
+			}
+		}
+	}
+	// a body that panics (recovered by the function itself) before the bound is reached
+	for _, op := range []string{"<", "<=", "!="} {
+		for _, step := range []int{1, 2} {
+			for _, start := range []string{"0", "a"} {
+				for _, bound := range []string{"10", "b"} {
+					l := &c12Loop{id: 0, v: "i", typ: "int", start: start, bound: bound, op: op, step: step, shape: "panicbody"}
+					c12Gen(l, [2]string{})
+					pre := "defer func() { recover() }()\n"
+					add(fmt.Sprintf("int/panicbody/i%s%s/start=%s/step=%+d", op, bound, start, step), []*c12Loop{l}, pre+l.plain, pre+l.native)
+				}
+			}
+		}
+	}
+	// a narrow signed counter looked at through a WIDER conversion (sign-changing or not)
+	for _, shape := range []string{"for3", "while"} {
+		for _, cmpT := range []string{"uint64", "uint16", "int64", "uint"} {
+			for _, op := range []string{"<", "<=", "!="} {
+				for _, step := range []int{1, -1} {
+					for _, start := range []string{"-3", "0", "a"} {
+						for _, bound := range []string{"7", "b"} {
+							l := &c12Loop{id: 0, v: "i", typ: "int8", start: start, bound: bound, op: op, step: step, cmpT: cmpT, shape: shape}
+							c12Gen(l, [2]string{})
+							add(fmt.Sprintf("int8/%s/%s(i)%s%s/start=%s/step=%+d", shape, cmpT, op, bound, start, step), []*c12Loop{l}, l.plain, l.native)
+						}
+					}
+				}
 			}
 		}
 	}
